@@ -589,6 +589,30 @@ def wiring_probe(ck):
                        case={"task": cls.__name__, "constructor_arguments": {k: list(v) for k, v in accepted.items()}, "parameter": name, "range_used": list(got)})
 
 
+def command_probe(ck):
+    """Cheap probe (no physics compilation): G1Locomotion.sample_command with pairwise different, non-nested ranges for the three
+    command components; every sampled component must lie in ITS OWN configured range (or the command is the zero command)."""
+    import inspect
+    if not hasattr(G1Locomotion, "sample_command"):
+        ck.notes.append("command probe skipped: G1Locomotion.sample_command not found"); return
+    cfg = {"lin_vel_x_range": (0.6, 1.0), "lin_vel_y_range": (-0.3, -0.1), "ang_vel_yaw_range": (0.15, 0.25)}
+    params = inspect.signature(G1Locomotion.__init__).parameters
+    if not all(k in params for k in cfg):
+        ck.notes.append("command probe skipped: constructor parameters renamed"); return
+    env = G1Locomotion(**cfg)
+    cmds = np.asarray(jax.vmap(lambda k: env.sample_command(key=k))(jr.split(jr.key(ck.seed + 5), 256)))
+    ck.count("command-range-probes", 256); ck.case_seen(("command-probe",))
+    for i, (name, (lo, hi)) in enumerate(cfg.items()):
+        col = cmds[:, i]
+        nonzero = ~np.all(cmds == 0.0, axis=1)
+        bad = nonzero & ((col < lo - 1e-6) | (col > hi + 1e-6))
+        if bad.any():
+            j = int(np.argmax(bad))
+            report(ck, "impl-violates-property", "C20/command/range",
+                   f"G1Locomotion.sample_command: component {i} ({name}) = {col[j]:.4f} outside its configured range {(lo, hi)}",
+                   case={"constructor_arguments": {k: list(v) for k, v in cfg.items()}, "key": f"jr.split(jr.key({ck.seed + 5}), 256)[{j}]", "command": cmds[j].tolist()})
+
+
 def describe(sig):
     last = sig.split("/")[-1]
     if last.startswith("model."):
@@ -651,11 +675,13 @@ def body(ck):
         ck.notes.append("C20_ONLY_GAIT=1: environment part skipped")
     elif quick:
         wiring_probe(ck)
+        command_probe(ck)
         env = G1Locomotion()
         direct_randomize(ck, cases, cj, sigs, env, quick)
         env_part(ck, cases, cj, sigs, "G1Locomotion", env, n_keys=24, n_steps=150, seed=ck.seed + 20, cfg_desc="default")
     else:
         wiring_probe(ck)
+        command_probe(ck)
         env = G1Locomotion()
         direct_randomize(ck, cases, cj, sigs, env, quick)
         env_part(ck, cases, cj, sigs, "G1Locomotion", env, n_keys=64, n_steps=1000, seed=ck.seed + 20, cfg_desc="default")
